@@ -302,7 +302,25 @@ namespace wc
         std::vector<int> headers;
         int ncookies = 0;
         int body     = 0;  // index into bodies
+        int cookieAttrs = 0; // attributes set on the Cookie objects handed to the builder (as if taken from a response's jar):
+                             // 1 Path, 2 Domain + Max-Age, 3 Secure, 4 HttpOnly, 5 extension, 6 all of them
     };
+    inline void apply_cookie_attrs(Http::Cookie& c, int a)
+    {
+        if (a == 1 || a == 6)
+            c.path = std::string("/app");
+        if (a == 2 || a == 6)
+        {
+            c.domain = std::string("example.com");
+            c.maxAge = 3600;
+        }
+        if (a == 3 || a == 6)
+            c.secure = true;
+        if (a == 4 || a == 6)
+            c.httpOnly = true;
+        if (a == 5 || a == 6)
+            c.ext.insert(std::make_pair("Scope", "x"));
+    }
     inline const std::vector<Http::Method>& methods()
     {
         static std::vector<Http::Method> m = { Http::Method::Get, Http::Method::Post, Http::Method::Put, Http::Method::Patch, Http::Method::Delete };
@@ -354,7 +372,11 @@ namespace wc
         static const char* cn[] = { "sid", "lang", "t" };
         static const char* cv[] = { "abc", "en", "1" };
         for (int i = 0; i < s.ncookies; ++i)
-            b.cookie(Http::Cookie(cn[i], cv[i]));
+        {
+            Http::Cookie ck(cn[i], cv[i]);
+            apply_cookie_attrs(ck, s.cookieAttrs);
+            b.cookie(ck);
+        }
         b.body(bodies[s.body]);
         BuiltRequest r;
         r.request = b.request_;
@@ -412,6 +434,14 @@ static void gen_programs(int Kops, bool quick)
     };
     std::vector<StreamOp> cur;
     rec(cur, 0);
+    // integers at the digit-count boundaries and of both signs, streamed alone, flushed, and after a write
+    static const long kEdge[] = { 9, 99, 100, 99999, 100000, 2147483647L, -1, -9, -10, -11, -42, -99, -100, -12345, -999999999, -2147483647L - 1 };
+    for (long v : kEdge)
+    {
+        gPrograms.push_back({ { OP_INT, v } });
+        gPrograms.push_back({ { OP_INT, v }, { OP_FLUSH, 0 } });
+        gPrograms.push_back({ { OP_WRITE, 5 }, { OP_INT, v }, { OP_INT, v } });
+    }
 }
 
 
@@ -471,6 +501,19 @@ static void build_space(bool thorough, int Kops)
                             gReqs.push_back(s);
                         }
                     }
+        // cookies that carry attributes (taken out of a response's jar and handed back to the builder): a request's Cookie
+        // header lists name=value pairs only
+        for (int c = 1; c <= 3; ++c)
+            for (int a = 1; a <= 6; ++a)
+                for (int mth = 0; mth < 2; ++mth)
+                {
+                    ReqSpec s;
+                    s.method      = mth;
+                    s.ncookies    = c;
+                    s.cookieAttrs = a;
+                    s.body        = mth ? 1 : 0;
+                    gReqs.push_back(s);
+                }
         // every single-byte body value
         for (size_t b = 0; b < gBodies.size(); ++b)
         {
